@@ -234,6 +234,7 @@ MC_RUNS = {
     "MC_StepMemo":    ("MC_StepDefs.tla", "MC_StepMemo.cfg", ("quick", "thorough"), 12),
     "MC_Mut":         ("MC_Mut.tla", "MC_Mut.cfg", ("quick", "thorough"), 8),
     "MC_Heap":        ("Heap.tla", "MC_Heap.cfg", ("quick", "thorough"), 8),
+    "MC_HeapDeep":    ("Heap.tla", "MC_HeapDeep.cfg", ("thorough",), 12),
 }
 
 MODEL_FILES_EXCLUDED = ("Trace", "DiffRef", "Lexer", "Frontend")
